@@ -22,7 +22,7 @@ Python values are modelled by `Value`:
   * `dict kvs`  — items in insertion order.
 Exceptions are modelled by their class only (`Err`).  `Err.fuel` is a model artefact
 (recursion budget); `unpack` gives the budget `length + 1`, which is never exhausted
-(`Lemmas.unpackAux_ne_fuel`).
+(`Fuel.unpack_ne_fuel`).
 -/
 namespace PyatvModel.C04.Opack
 
